@@ -201,7 +201,7 @@ pub fn run(ctx: Ctx) -> Report {
 pub fn meta() -> CheckMeta {
     CheckMeta {
         level: "exploration",
-        rule: "function level: the real authenticate_client reading from a MemPipe in 5 fragmentation classes (whole, 1-byte drip, split after the hash, split inside the length, random with spurious Pending): all 256 single-bit flips of the right hash, single-byte deviations at every position (all 32x255 in the thorough tier), correct k-byte prefixes/suffixes for k=0..31, two-byte deviations whose differences cancel (same XOR mask, +1/-1, swapped bytes), hashes of related passwords, all-zero/all-one => must be rejected; valid preambles with declared padding at the boundaries + 500 random lengths (thorough: all 65536) followed by a sentinel frame => Ok and the sentinel must be exactly what is left; every truncation length of valid preambles => not Ok and no hang after EOF. End to end (real Server::listen + TcpProxyHandler, raw TLS client): a bad preamble followed by a perfectly valid Settings+SYN+destination+data must cause no Dial event, no target accept and no plaintext reply; positive controls must get a session. distinct_nontrivial = distinct (preamble, fragmentation class). End to end also: peers that send nothing / part of the right hash / a wrong hash with unfinished padding, then stall 6.5 s (thorough also 12, 31, 62 s) and then send a valid session: never a Destination/Dial event or a reply frame (the complete right hash is never sent, so no such peer is entitled to a session).".into(),
+        rule: "function level: the real authenticate_client reading from a MemPipe in 5 fragmentation classes (whole, 1-byte drip, split after the hash, split inside the length, random with spurious Pending): all 256 single-bit flips of the right hash, single-byte deviations at every position (all 32x255 in the thorough tier), correct k-byte prefixes/suffixes for k=0..31, two-byte deviations whose differences cancel (same XOR mask, +1/-1, swapped bytes), hashes of related passwords, all-zero/all-one => must be rejected; valid preambles with declared padding at the boundaries + 500 random lengths (thorough: all 65536) followed by a sentinel frame => Ok and the sentinel must be exactly what is left; every truncation length of valid preambles => not Ok and no hang after EOF. End to end (real Server::listen + TcpProxyHandler, raw TLS client): a bad preamble followed by a perfectly valid Settings+SYN+destination+data must cause no Dial event, no target accept and no plaintext reply; positive controls must get a session. distinct_nontrivial = distinct (preamble, fragmentation class). End to end also: peers that send nothing / part of the right hash / a wrong hash with unfinished padding, then stall 6.5 s (thorough also 12, 31, 62 s) and then send a valid session: never a Destination/Dial event or a reply frame (the complete right hash is never sent, so no such peer is entitled to a session). Constructors and blank space: servers built with Server::new and with Server::new_with_reloadable_tls, configured with passwords that have blank space at their ends (' pw', 'pw ', 'pw\\n', tabs, two blanks): the hash of exactly the configured password must get a session, the hashes of the trimmed / re-padded variants must not.".into(),
         assumptions: vec!["SHA-256 from the sha2 crate is used independently to compute expected hashes".into()],
         floors: vec![("wrong_hash_preambles", 1000), ("valid_preambles", 400), ("truncated_preambles", 300), ("e2e_bad_preambles", 15), ("e2e_positive_controls", 4), ("e2e_stalled_preambles", 3), ("e2e_constructor_password_probes", 30)],
         exhaustive: false,
